@@ -1,5 +1,12 @@
 """C04 - key commands put exactly the intended press/release events on the wire."""
+import contextlib
+import io
+import logging
+import os
 import random
+import shutil
+import struct
+import tempfile
 
 import clientops
 import common
@@ -49,8 +56,172 @@ def run(tier, seed, model):
                                               "what": f"{case[4][idx]!r}: model {m_bytes[idx]} vs client {real[idx]}"})
     camp.count("documented-names", len(x11.DOCUMENTED))
     clientops.run_campaign(camp, model, rng, n, ["keyPress", "keyDown", "keyUp"], 30, "C04")
+    # the log level is not an input of the property: the same operations at DEBUG level must write the same bytes
+    with debug_logging():
+        for ci, case in enumerate(cases):
+            real, _final = clientops.run_real(*case)
+            base, _ = None, None
+            camp.evaluations += 1
+            camp.count("debug-logging:documented-names")
+            spec = clientops.Spec(8, 8, False, case[2])
+            for op, got in zip(case[4], real):
+                exp = spec.expected(op)
+                parsed = clientops.parse_c2s(got) if got is not None else None
+                if parsed != exp:
+                    camp.oracle_failures.append({"kind": "oracle", "property": "C04", "case": {
+                        "width": 8, "height": 8, "force_caps": case[2], "has_screen": False, "ops": [list(op)], "debug_logging": True},
+                        "what": f"with DEBUG logging enabled, {op!r}: expected {exp!r}, client wrote {parsed!r}"})
+                    break
+    cli_typing(camp, rng, 60 if tier == "quick" else 1500)
     return camp
 
 
+@contextlib.contextmanager
+def debug_logging():
+    """vncdo -vv: every vncdotool logger at DEBUG with a handler that really formats the records"""
+    names = ["", "vncdotool", "vncdotool.client", "vncdotool.rfb", "vncdotool.command", "twisted"]
+    saved = [(logging.getLogger(n), logging.getLogger(n).level) for n in names]
+    h = logging.StreamHandler(io.StringIO())
+    h.setLevel(logging.DEBUG)
+    root = logging.getLogger()
+    root.addHandler(h)
+    try:
+        for lg, _ in saved:
+            lg.setLevel(logging.DEBUG)
+        yield
+    finally:
+        root.removeHandler(h)
+        for lg, lv in saved:
+            lg.setLevel(lv)
+
+
+TEXT_ALPHABET = list("abcxyzABCXYZ0189 !@#~_-+=/?.,;:'\"<>[]{}|\\`$%^&*()") + ["\u00e9", "\u00df", "\u20ac", "\u4e2d", "\U0001f600"]
+
+
+def run_cli(toks, delay, force_caps):
+    """the real build_command_list chain on a VNCDoCLIClient over a string transport, virtual clock -> bytes written by the chain"""
+    from twisted.internet.defer import Deferred
+    from twisted.internet.task import Clock
+    from twisted.internet.testing import StringTransport
+    from vncdotool import client as vclient
+    from vncdotool import command
+    clock = Clock()
+    vclient.reactor = clock
+    command.reactor = clock
+    f = command.VNCDoCLIFactory()
+    f.force_caps = force_caps
+    f.deferred = Deferred()
+    tr = StringTransport()
+    f.deferred.addCallback(lambda c: (tr.clear(), c)[1])       # drop the connection set-up
+    command.build_command_list(f, list(toks), delay, 1.0, False)
+    done, failed = [], []
+    f.deferred.addCallbacks(lambda r: done.append(1), lambda fl: failed.append(fl))
+    c = command.VNCDoCLIClient()
+    c.factory = f
+    c.makeConnection(tr)
+    hs = b"RFB 003.008\n\x01\x01\0\0\0\0" + struct.pack("!HH16sI", 8, 8, bytes([32, 24, 0, 1, 0, 255, 0, 255, 0, 255, 0, 8, 16, 0, 0, 0]), 0)
+    c.dataReceived(hs)
+    guard = 0
+    while not done and not failed and guard < 100000:
+        guard += 1
+        calls = clock.getDelayedCalls()
+        if not calls:
+            break
+        clock.advance(max(0.0, min(dc.getTime() for dc in calls) - clock.seconds()))
+    return tr.value(), bool(done), failed
+
+
+def cli_typing(camp, rng, n):
+    """type / typefile / key / keydown / keyup through the command line: several typing commands in one run, with and without
+    --delay, with and without forced caps, at default and DEBUG log level"""
+    tmp = tempfile.mkdtemp(prefix="c04-")
+    try:
+        for i in range(n):
+            toks, exp_ops = [], []
+            for j in range(rng.randrange(1, 5)):
+                r = rng.random()
+                if r < 0.45:
+                    text = "".join(rng.choice(TEXT_ALPHABET) for _ in range(rng.randrange(1, 7)))
+                    toks += ["type", text]
+                    exp_ops += [("keyPress", ch) for ch in text]
+                elif r < 0.65:
+                    text = "".join(rng.choice(TEXT_ALPHABET + ["\n", "\t", "\r\n"]) for _ in range(rng.randrange(0, 7)))
+                    path = os.path.join(tmp, "t%d_%d.txt" % (i % 8, j))
+                    with open(path, "w", encoding="utf-8", newline="") as fh:
+                        fh.write(text)
+                    toks += ["typefile", path]
+                    with open(path) as fh:          # what open() in text mode hands to the command (newline translation)
+                        content = fh.read()
+                    for ch in content:
+                        if ch == "\r":
+                            continue
+                        exp_ops.append(("keyPress", {"\n": "enter", "\t": "tab"}.get(ch, ch)))
+                else:
+                    k = rng.choice(["a", "Q", "enter", "tab", "ctrl-c", "ctrl-alt-del", "shift-x", "f5", "-", "+"])
+                    cmd = rng.choice(["key", "key", "keydown", "keyup"])
+                    toks += [cmd, k]
+                    exp_ops.append(({"key": "keyPress", "keydown": "keyDown", "keyup": "keyUp"}[cmd], k))
+            delay = rng.choice([0, 0, 0.02, 0.15])
+            fc = rng.random() < 0.3
+            dbg = rng.random() < 0.3
+            spec = clientops.Spec(8, 8, False, fc)
+            exp = []
+            in_domain = True
+            for op in exp_ops:
+                e = spec.expected(op)
+                if e is None:
+                    in_domain = False
+                    break
+                exp += e
+            if not in_domain:
+                camp.count("cli-typing:outside-domain")
+                continue
+            camp.evaluations += 1
+            camp.count("cli-typing:delay" if delay else "cli-typing:no-delay")
+            camp.count("cli-typing:commands", len(toks) // 2)
+            camp.nontrivial.add(("cli", tuple(toks), delay, fc, dbg))
+            try:
+                with (debug_logging() if dbg else contextlib.nullcontext()):
+                    data, done, failed = run_cli(toks, delay, fc)
+                got = clientops.parse_c2s(data)
+                why = None
+                if failed:
+                    why = f"the command chain failed: {failed[0].value!r}"
+                elif not done:
+                    why = "the command chain did not finish"
+                elif got != exp:
+                    k = next((a for a, (x, y) in enumerate(zip(got or [], exp)) if x != y), min(len(got or []), len(exp)))
+                    why = (f"{len(exp)} key events expected, {len(got or [])} written; first difference at #{k}: "
+                           f"expected {exp[k] if k < len(exp) else None}, wrote {(got or [None])[k] if got and k < len(got) else None}")
+            except Exception as e:  # noqa: BLE001
+                why = f"raised {type(e).__name__}: {e}"
+            if why:
+                camp.oracle_failures.append({"kind": "oracle", "property": "C04",
+                                             "case": {"cli": toks, "delay": delay, "force_caps": fc, "debug_logging": dbg},
+                                             "what": f"vncdo {'-vv ' if dbg else ''}{'--force-caps ' if fc else ''}--delay {int(delay * 1000)} "
+                                                     f"{' '.join(repr(t) for t in toks)[:160]}: {why}"})
+                return
+    finally:
+        shutil.rmtree(tmp, ignore_errors=True)
+
+
 def replay(payload):
-    return clientops.replay_case(payload["case"], "C04")
+    case = payload["case"]
+    if "cli" in case:
+        toks = case["cli"]
+        if "typefile" in toks:
+            return True, "replay: the case names a temporary file; re-run ./check C04"
+        spec = clientops.Spec(8, 8, False, case["force_caps"])
+        exp = []
+        names = {"key": "keyPress", "keydown": "keyDown", "keyup": "keyUp"}
+        for cmd, arg in zip(toks[0::2], toks[1::2]):
+            for op in ([("keyPress", ch) for ch in arg] if cmd == "type" else [(names[cmd], arg)]):
+                exp += spec.expected(op) or []
+        with (debug_logging() if case.get("debug_logging") else contextlib.nullcontext()):
+            data, done, failed = run_cli(toks, case["delay"], case["force_caps"])
+        ok = done and not failed and clientops.parse_c2s(data) == exp
+        return ok, "replay: " + ("the key events are the expected ones" if ok else "still differs")
+    if case.get("debug_logging"):
+        with debug_logging():
+            return clientops.replay_case(case, "C04")
+    return clientops.replay_case(case, "C04")
